@@ -113,7 +113,9 @@ class Submission:
     def get_files_lines(self):
         """ Retrieves a dictionary of lists of strings representing the files'
         lines of code. """
-        return {filename: self.get_lines(filename) for filename in self.files}
+        # Submissions can carry binary files (images, datasets) next to the code
+        return {filename: self.get_lines(filename) for filename, contents in self.files.items()
+                if isinstance(contents, str)}
 
     def replace_main(self, code: str, file: str = None):
         """
